@@ -1,4 +1,7 @@
 pub mod checks;
+pub mod cookie;
+pub mod gens;
 pub mod refcodec;
 pub mod refcrypto;
 pub mod runner;
+pub mod sim;
